@@ -9,7 +9,7 @@ PROP_MODS = ["ODataVerif.Props.Accepted", "ODataVerif.Tie.Sql", "ODataVerif.Tie.
 
 def cases_for(ctx):
     rng = ctx.rng
-    nodes = sc.operator_nestings()
+    nodes = sc.operator_nestings() + sc.repeated_subterms()
     for h in ["x", "O'B", "100%", "a_c", "a\\b", "", "it's 100%", "o'_x", "%'", "a\\'b%", "'_'", "50%/50"]:
         nodes += sc.string_positions(h)
     g = gens_typed.TypedGen(rng)
